@@ -331,6 +331,10 @@ impl World {
         let a = unsafe { &*self.atoms[x].as_ptr() };
         a.op(&Op::St(x, v, Ordering::Release));
     }
+    pub fn atomic_fadd_rlx(&self, x: usize, v: i128) {
+        let a = unsafe { &*self.atoms[x].as_ptr() };
+        a.op(&Op::Fetch(x, Fetch::Add, v, Ordering::Relaxed));
+    }
     pub fn atomic_load_acq(&self, x: usize) -> i128 {
         let a = unsafe { &*self.atoms[x].as_ptr() };
         match a.op(&Op::Ld(x, Ordering::Acquire)) {
